@@ -580,6 +580,66 @@ def suite_failing_buffer(ctx: Ctx) -> SuiteResult:
     return res
 
 
+def pending_case(case: dict) -> list[Violation]:
+    """Samples waiting in the collector while the data user's state is loaded (a restore in place: the agent has
+    collected, the hand-over has not happened yet): they are delivered by the next hand-over, after the loaded
+    content, once each. Monitor only - the model has no load operation (what is loaded is C05's business)."""
+    import tempfile
+    from pamiq_core.data import DataUser
+    from pamiq_core.data.impls import SequentialBuffer
+    cap, first, pending, flush = case["cap"], case["first"], case["pending"], case["flush"]
+    user = DataUser(SequentialBuffer(cap))
+    coll = user._collector
+    d = Path(tempfile.mkdtemp(prefix="pamiq-verif."))
+    try:
+        for x in first:
+            coll.collect(x)
+        user.update()
+        saved = list(user.get_data())
+        user.save_state(d / "u")
+        for x in pending:
+            coll.collect(x)
+        user.load_state(d / "u")
+        if flush == "update":
+            user.update()
+            got = list(user._buffer.get_data())
+        else:
+            got = list(user.get_data())
+        exp = (saved + pending[-cap:] if cap else [])[-cap:] if cap else []
+        if got != exp:
+            return [Violation("queue:pending-lost-at-load",
+                              f"buffer capacity {cap}: saved content {saved}, then {pending} collected and still in the "
+                              f"collector when load_state ran; after the next {flush}() the buffer holds {got}, expected "
+                              f"{exp} (the loaded content followed by the waiting samples)", dict(case, kind="pending"))]
+        return []
+    finally:
+        shutil.rmtree(d, ignore_errors=True)
+
+
+def suite_pending_across_load(ctx: Ctx) -> SuiteResult:
+    res = SuiteResult("queue-pending-across-load", exhaustive=True,
+                      rule="capacity 1..4 x 0..3 samples delivered and saved x 0..3 samples collected afterwards and still "
+                           "waiting in the collector when load_state() runs x flush by update()/get_data(): the waiting "
+                           "samples arrive after the loaded content, once each; monitor only (no load operation in the "
+                           "model); non-trivial = some sample waits")
+    for cap in (1, 2, 3, 4):
+        for nf in range(4):
+            for npend in range(4):
+                for flush in ("update", "get_data"):
+                    case = {"cap": cap, "first": list(range(10, 10 + nf)), "pending": list(range(20, 20 + npend)),
+                            "flush": flush}
+                    res.evaluations += 1
+                    res.hit(f"pending:{min(npend, 2)}")
+                    if npend:
+                        res.nontrivial.add((cap, nf, npend, flush))
+                    res.violations += pending_case(case)
+    res.sample(case)
+    return res
+
+
+suite_pending_across_load.needs_driver = False
+
+
 def suite_malformed(ctx: Ctx) -> SuiteResult:
     res = SuiteResult("queue-malformed",
                       rule="negative max_queue_size (ValueError on both sides), unknown names, "
@@ -960,6 +1020,10 @@ def search(ctx: Ctx, disagreements, broken):
 def replay(ctx: Ctx, payload: dict) -> SuiteResult:
     res = SuiteResult("replay")
     case = payload.get("case") or payload.get("first_disagreement")
+    if case.get("kind") == "pending":
+        res.violations = pending_case(case)
+        res.evaluations = 1
+        return res
     if "failing_buffer" in case:
         r = suite_failing_buffer(ctx)
         want = case["failing_buffer"]
@@ -996,7 +1060,7 @@ if __name__ == "__main__":
                 "Pamiq.LockObj.lock_atomic", "Pamiq.LockObj.lock_atomic_final",
                 "Pamiq.Queue.atomicCall_collect", "Pamiq.Queue.atomicCall_update",
                 "Pamiq.Queue.collect_update_atomic"],
-            suites=[suite_sequential, suite_failing_buffer, suite_malformed, suite_conc_lock_orders, suite_conc_lines,
+            suites=[suite_sequential, suite_failing_buffer, suite_pending_across_load, suite_malformed, suite_conc_lock_orders, suite_conc_lines,
                     suite_conc_random],
             search=search, replay=replay,
             assumptions=[
